@@ -31,12 +31,13 @@ ASSUMPTIONS = [
 ]
 MIN_NONTRIVIAL_FRACTION = 0.3
 RULE += " Added after the seeded rounds: " + 'Operations are retried under the same id (incl. equal priorities); after every step, kill and maintenance call no ended operation may own a resource; work/validate functions raise one of 16 exception types.'
+RULE += " Round 8: work behaviours `reregister` / `reregister-raise` - the operation registers the resources it holds a second time (allow_preemption flipped) and then returns or raises."
 EXHAUSTIVE_NOTE = {"quick": "all request lists of length <= 3 over {r1,r2} (15) x 6 work x 4 validate x 3 background settings x 2 paths = 2160 plans, complete",
                    "thorough": "all request lists of length <= 4 over {r1,r2,zz} (121) x 6 work x 4 validate x 3 background settings x 2 paths = 17424 plans, complete"}
 
 # "cancel" / "interrupt": the callback ends with asyncio.CancelledError / KeyboardInterrupt - BaseException, not Exception: the call propagates it,
 # but "however a coordinated operation ends ... when the call returns no registered resource is still owned by that operation"
-WORK = ["return", "raise", "kill-self", "maintenance", "shutdown", "nested", "cancel", "interrupt"]
+WORK = ["return", "raise", "kill-self", "maintenance", "shutdown", "nested", "cancel", "interrupt", "reregister", "reregister-raise"]
 VALID = ["none", "true", "false", "raise", "cancel"]
 CPK = ["pass", "pass", "pass", "false", "raise"]
 RIDS = ["r1", "r2", "r3"]
@@ -217,6 +218,14 @@ def judge(case):
                 (cell or system).run_maintenance()
             elif work == "shutdown":
                 system.shutdown()
+            elif work in ("reregister", "reregister-raise"):
+                # the operation re-registers the resources it holds (e.g. to flip allow_preemption): whatever the registry holds afterwards,
+                # nothing in it may belong to this operation once it has ended
+                for rid_ in distinct:
+                    if rid_ in ctrl.resources and ctrl.resources[rid_].owner == tid:
+                        system.register_resource(rid_, allow_preemption=not ctrl.resources[rid_].allow_preemption)
+                if work == "reregister-raise":
+                    raise RuntimeError("work crashed after re-registering")
             elif work == "nested":
                 nested_counter[0] += 1
                 system.execute_operation("N%d_%d" % (i, nested_counter[0]), "nested-agent", lambda: "inner",
@@ -294,7 +303,7 @@ def judge(case):
             if len(vals) > 1:
                 out.fail("validate-ran-twice", "validate ran %d times" % len(vals), d)
                 return out
-            if not works or work == "raise" or log.index(works[0]) > vals[0]:
+            if not works or work in ("raise", "reregister-raise") or log.index(works[0]) > vals[0]:
                 out.fail("validate-before-work", "validate ran without a normally completed work function", d)
                 return out
             if log[vals[0]][1] != "result-%d" % i:
@@ -302,7 +311,7 @@ def judge(case):
                 return out
         # (f) success only if both succeeded
         if success:
-            okw = bool(works) and work != "raise"
+            okw = bool(works) and work not in ("raise", "reregister-raise")
             okv = val in ("none", "true") and (val == "none" or bool(vals))
             if not (okw and okv):
                 out.fail("false-success:work=%s:validate=%s" % (work if not okw else "ok", val), "success reported although work/validation did not both succeed", d)
